@@ -30,12 +30,22 @@ package witness
 //@   let fault    := (woCalled && wo_err != nil) || (glCalled && gl_err != nil && code(gl_err) != NotFound)
 //@                   || (signCalled && sign_err != nil) || (setCalled && set_err != nil)
 //@   let zeroGrow := pS == 0 && nS > 0
+//@   // projections of counterexamples (replay)
+//@   let woFail   := woCalled && wo_err != nil
+//@   let glFail   := glCalled && gl_err != nil && code(gl_err) != NotFound
+//@   let setFail  := setCalled && set_err != nil
+//@   let signFail := signCalled && sign_err != nil
+//@   let nsigNext := nsig(nextRaw)
+//@   let nsigOut  := nsig(set_arg)
+//@   let nSigners := len(w.Signers)
 //@   let cAttempt := counterUpdateAttempt
 //@   let cSuccess := counterUpdateSuccess
 //@   let cInvalid := counterInvalidConsistency
 //@   let cIncons  := counterInconsistentCheckpoints
 //@
 //@   requires w != nil && w.lsp != nil
+//@   // the witness's own keys are not log keys (configuration precondition; needed for "a cosigned note still opens under the log key")
+//@   requires known ==> !signerKey(w.Signers, L.SigV)
 //@   requires cAttempt != nil && cSuccess != nil && cInvalid != nil && cIncons != nil
 //@   requires cAttempt != cSuccess && cAttempt != cInvalid && cAttempt != cIncons && cSuccess != cInvalid && cSuccess != cIncons && cInvalid != cIncons
 //@
@@ -78,9 +88,25 @@ package witness
 //@   ensures[C09.8]  !fault && V == V_Accept   && !zeroGrow ==> err == nil
 //@   ensures[C09.9]  fault ==> err != nil && out == nil && !isSentinel(err)
 //@
+//@   // ---- honest progress (C08): what is stored always re-opens under the log's key; an honest step is accepted
+//@   ensures[C08.a]  committed ==> parsesAs(set_arg, L.Origin, L.SigV)
+//@   ensures[C08.c]  !fault && known && nOK && nsig(nextRaw) == 1 && stored && pOK && oldSize == pS && pS <= nS
+//@                   && (pS == nS ==> sameRoot && len(cProof) == 0) && (pS == 0 && nS > 0 ==> len(cProof) == 0)
+//@                   && (0 < pS && pS < nS ==> vcOK) ==> err == nil
+//@   ensures[C08.d]  !fault && known && nOK && !stored && oldSize == 0 && len(cProof) == 0 ==> err == nil
+//@
 //@   // ---- counters (C20)
 //@   ensures[C20.a]  cnt[cAttempt][logID] == old(cnt[cAttempt][logID]) + (known ? 1 : 0)
 //@   ensures[C20.b]  cnt[cSuccess][logID] == old(cnt[cSuccess][logID]) + (err == nil ? 1 : 0)
 //@   ensures[C20.c]  cnt[cInvalid][logID] == old(cnt[cInvalid][logID]) + ((zeroGrow ? err == ErrInvalidProof : (!fault && V == V_BadProof)) ? 1 : 0)
 //@   ensures[C20.d]  cnt[cIncons][logID]  == old(cnt[cIncons][logID]) + ((!fault && V == V_RootMismatch) ? 1 : 0)
 //@   ensures[C20.e]  forall c Iface, l Str :: (l != logID || (c != cAttempt && c != cSuccess && c != cInvalid && c != cIncons)) ==> cnt[c][l] == old(cnt[c][l])
+
+//@ func (*Witness).GetCheckpoint
+//@   returns (out, err)
+//@   let S := w.lsp
+//@   requires w != nil && w.lsp != nil
+//@   ensures[C04.g,C16.g] err == nil ==> st_has[S][logID] && out == st_val[S][logID]
+//@   ensures[C04.g,C16.g] st_has[S][logID] && !(n_ro == old(n_ro) + 1 && ro_err != nil) && !(n_gl == old(n_gl) + 1 && gl_err != nil) ==> err == nil
+//@   ensures[C16.n]  !st_has[S][logID] ==> err != nil && (!(n_ro == old(n_ro) + 1 && ro_err != nil) ==> code(err) == NotFound || code(gl_err) != NotFound) && out == nil
+//@   ensures[C03.g,C16.f] st_has == old(st_has) && st_val == old(st_val) && n_commit == old(n_commit) && n_wo == old(n_wo) && n_set == old(n_set)
